@@ -218,6 +218,10 @@ def universe_source(classes):
             lines.append("    pass")
         for m in c["methods"]:
             ann = "" if m["ret"]["k"] == "noann" else " -> " + _ty_src(m["ret"])
+            if m["name"] == "jets" and ann.startswith(" -> Iterable[") and m["ret"]["a"][0]["k"] == "ty" \
+                    and not m["ret"]["a"][0]["a"]:
+                # a forward reference INSIDE the generic: Iterable["Jet"]
+                ann = ' -> Iterable["' + m["ret"]["a"][0]["s"] + '"]'
             if m["name"] == "trks" and ann.startswith(" -> Iterable["):
                 # the same generic spelled through collections.abc (PEP 585), as newer code writes it
                 ann = " -> collections.abc." + ann[len(" -> "):]
